@@ -827,7 +827,7 @@ func Run(r *core.Run) {
 		replay(r)
 		return
 	}
-	r.Set("rule", "cases are enumerated by TLC from spec/JsSyntax*.tla: expression trees (one operator per precedence level / associativity class, depth<=2 exhaustive), left/right spines to depth 4-5 for the printer's downward flags, statement skeletons x depth<=1 trees, string/template/regexp bodies over code-unit classes x spellings x quote kinds, numeric lexical forms x magnitude classes, JSX elements; each case x configuration goes through the real api.Transform. A tree case is non-trivial iff it carries >= 1 hazard label (a required parenthesis, a start-of-statement/arrow-body/for-init restriction or a token-gluing hazard); a literal case iff it contains a non-letter code-unit class (numbers: a non-plain-decimal form)")
+	r.Set("rule", "cases are enumerated by TLC from spec/JsSyntax*.tla / JsLiteral*.tla / JsJsx.tla: expression trees (one operator per precedence level / associativity class, depth<=2), left spines over 22 left-edge operator classes, family mix (restricted leaves under chains of 2-3 forwarding operators in every kind of for-init and statement start), statement skeletons x depth<=1 trees, string/template bodies over 52 code-unit classes x 7 spellings x 4 quote kinds (every ordered class pair, constructive >=3-unit hazard families) in the spec's program contexts (expression, key, strict code, both-quotes, line-wrap, directive, template head/tail), regexp atoms, numeric lexical forms x magnitude classes, JSX elements; quick = the fixed label-covering part of each family + a slice of its bulk cut by VERIF_SEED, thorough = all; each case x configuration goes through the real api.Transform. A tree case is non-trivial iff it carries >= 1 hazard label (a required parenthesis, a start-of-statement/arrow-body/for-init restriction or a token-gluing hazard); a literal case iff it contains a non-letter code-unit class or a branch label (numbers: a non-plain-decimal form)")
 	r.Assume("Node 20 V8 and Node's internal acorn 8.16 are the reference for validity, tree shape and literal values; the spec's prediction is cross-validated against them on every INPUT (disagreement = SPEC-DRIFT, case excluded)")
 	r.Assume("numeric value equality is judged by V8 on the enumerated lexical forms x magnitude classes; float64 bit patterns outside that grid and code-unit VALUES beyond the class representatives are not reached (DESIGN.md section 6)")
 	r.Assume("never minify-syntax / minify-identifiers, never lowering (Target ESNext)")
@@ -846,7 +846,7 @@ func Run(r *core.Run) {
 		}
 		for s := 0; s < 2; s++ {
 			jobs = append(jobs, tlcJob{family: "spine", size: 3, shard: s, shards: 2, parts: 8, keep: 30, seed: r.Seed})
-			jobs = append(jobs, tlcJob{family: "mix", size: 3, shard: s, shards: 2, parts: 8, keep: 4, seed: r.Seed})
+			jobs = append(jobs, tlcJob{family: "mix", size: 3, shard: s, shards: 2, parts: 8, keep: 16, seed: r.Seed})
 		}
 		jobs = append(jobs, tlcJob{family: "skel", size: 2, shard: 0, shards: 1, parts: 16, keep: 1})
 		// random compositions of the same node classes to depth 3 (seeded)
